@@ -1,2 +1,714 @@
+/* e2_conf.c - engine E2 "conf": a fork server around the real config.c / log.c (C14, C15, C16, C18).
+ *
+ *   core_vh conf serve        requests on stdin, JSON lines on stdout (see vp/conf.py)
+ *
+ * Events (wire form  "<K> <len>\n<bytes>"):
+ *   G  register a node: tab separated  s <subtype> <path> <default|\1>   |  l <path> <item>...
+ *                                      i <path> <host|\1> <service|\1>    |  o <path>
+ *      (\1 alone = NULL; every registered node gets the logging hook; missing parent objects are registered)
+ *   L  conf_read() of exactly these bytes (written to a memfd, opened through /proc/self/fd)
+ *   F  conf_read() of the named path (for unreadable / missing files)
+ *   M  emit one message "<tag>-<facility>-<severity>" for every facility of {f1,f2,f3} and every severity
+ *      (fatal in a sub-fork, since it terminates the process), then read the files A, B, C of the cwd back
+ *
+ * Requests:
+ *   EXPAND <n_hist> <n_cand>     a child replays the history; every candidate is applied in its own grandchild
+ *                                which reports {rc, hooks, dump, emit}; crashes are observations
+ *   SWEEP <n_hist> <src...>      a child replays the history; candidates (a list, or every token string up to a
+ *                                length) are loaded one after another IN ONE PROCESS for as long as they fail -
+ *                                after each failure the live tree must dump identically and no hook may have
+ *                                run; a success (or a contaminated state) ends that process and a fresh fork of
+ *                                the prior state continues with the next candidate
+ */
+#define _GNU_SOURCE
 #include "src/common.h"
-int e2_conf_main(int argc, char **argv) { (void)argc; (void)argv; return 2; }
+#include "vh_json.h"
+#include <sys/mman.h>
+#include <sys/wait.h>
+#include <sys/stat.h>
+#include <fcntl.h>
+#include <unistd.h>
+#include <signal.h>
+
+static int mfd = -1;
+static char mpath[64];
+static struct char_vector hooklog;
+static int hook_count;
+
+/* ---- paths, hooks ---------------------------------------------------------------------------------- */
+static void node_path(struct conf_node_base *n, struct char_vector *cv)
+{
+    if (n->parent && n->parent->base.parent) {
+        node_path(&n->parent->base, cv);
+        char_vector_append(cv, '/');
+    }
+    char_vector_append_string(cv, n->name ? n->name : "?");
+}
+
+static const char *kind_name(int t)
+{
+    switch (t) {
+    case CONF_STRING: return "s";
+    case CONF_INADDR: return "i";
+    case CONF_STRING_LIST: return "l";
+    case CONF_OBJECT: return "o";
+    }
+    return "?";
+}
+
+static CONF_UPDATE_HOOK(vh_hook)
+{
+    hook_count++;
+    char_vector_append_string(&hooklog, kind_name(node_->type));
+    char_vector_append(&hooklog, ':');
+    node_path(node_, &hooklog);
+    char_vector_append(&hooklog, '\n');
+}
+
+/* ---- dump ------------------------------------------------------------------------------------------- */
+static void jstr(struct char_vector *cv, const char *s)
+{
+    if (!s) { char_vector_append_string(cv, "null"); return; }
+    char_vector_append(cv, '"');
+    for (; *s; ++s) {
+        unsigned char c = (unsigned char)*s;
+        if (c == '"' || c == '\\') { char_vector_append(cv, '\\'); char_vector_append(cv, c); }
+        else if (c < 0x20 || c >= 0x7f) char_vector_append_printf(cv, "\\u%04x", c);
+        else char_vector_append(cv, c);
+    }
+    char_vector_append(cv, '"');
+}
+
+static void jvec(struct char_vector *cv, const struct string_vector *sv)
+{
+    unsigned int ii;
+    char_vector_append(cv, '[');
+    for (ii = 0; ii < sv->used; ++ii) {
+        if (ii) char_vector_append(cv, ',');
+        jstr(cv, sv->vec[ii]);
+    }
+    char_vector_append(cv, ']');
+}
+
+static void dump_node(struct char_vector *cv, struct conf_node_base *b)
+{
+    char_vector_append_string(cv, "{\"n\":");
+    jstr(cv, b->name);
+    char_vector_append_printf(cv, ",\"t\":\"%s\",\"sp\":%d,\"pr\":%d,\"hk\":%d", kind_name(b->type), b->specified, b->present,
+                              b->hook == vh_hook ? 1 : (b->hook ? 2 : 0));
+    switch (b->type) {
+    case CONF_STRING: {
+        struct conf_node_string *s = ENCLOSING_STRUCT(b, struct conf_node_string, base);
+        char_vector_append_string(cv, ",\"v\":"); jstr(cv, s->value);
+        if (b->specified) {
+            char_vector_append_string(cv, ",\"d\":"); jstr(cv, s->def_value);
+            char_vector_append_printf(cv, ",\"st\":%d,\"pv\":", (int)s->subtype);
+            switch (s->subtype) {
+            case CONF_STRING_PLAIN:
+                if (s->parsed.p_string == s->value) char_vector_append_string(cv, "\"=v\"");
+                else if (!s->parsed.p_string) char_vector_append_string(cv, "null");
+                else char_vector_append_string(cv, "\"!stale-pointer\"");
+                break;
+            case CONF_STRING_BOOLEAN: char_vector_append_printf(cv, "%d", s->parsed.p_boolean); break;
+            case CONF_STRING_INTEGER: char_vector_append_printf(cv, "%d", s->parsed.p_integer); break;
+            case CONF_STRING_FLOAT: char_vector_append_printf(cv, "\"%.17g\"", s->parsed.p_double); break;
+            case CONF_STRING_INTERVAL: char_vector_append_printf(cv, "%u", s->parsed.p_interval); break;
+            case CONF_STRING_VOLUME: char_vector_append_printf(cv, "%u", s->parsed.p_volume); break;
+            default: char_vector_append_string(cv, "\"?\""); break;
+            }
+        }
+        break;
+    }
+    case CONF_INADDR: {
+        struct conf_node_inaddr *s = ENCLOSING_STRUCT(b, struct conf_node_inaddr, base);
+        char_vector_append_string(cv, ",\"h\":"); jstr(cv, s->hostname);
+        char_vector_append_string(cv, ",\"sv\":"); jstr(cv, s->service);
+        if (b->specified) {
+            char_vector_append_string(cv, ",\"dh\":"); jstr(cv, s->def_hostname);
+            char_vector_append_string(cv, ",\"ds\":"); jstr(cv, s->def_service);
+        }
+        char_vector_append_printf(cv, ",\"as\":%d", (int)s->state);
+        break;
+    }
+    case CONF_STRING_LIST: {
+        struct conf_node_string_list *s = ENCLOSING_STRUCT(b, struct conf_node_string_list, base);
+        char_vector_append_string(cv, ",\"v\":"); jvec(cv, &s->value);
+        if (b->specified) { char_vector_append_string(cv, ",\"d\":"); jvec(cv, &s->def_value); }
+        break;
+    }
+    case CONF_OBJECT: {
+        struct conf_node_object *o = ENCLOSING_STRUCT(b, struct conf_node_object, base);
+        struct set_node *it;
+        unsigned int n = 0;
+        char_vector_append_string(cv, ",\"c\":[");
+        for (it = set_first(&o->contents); it; it = set_next(it)) {
+            struct conf_node_base *c = set_node_data(it);
+            if (n++) char_vector_append(cv, ',');
+            if (c->parent != o) char_vector_append_string(cv, "{\"!badparent\":1},");
+            dump_node(cv, c);
+        }
+        char_vector_append_printf(cv, "],\"cnt\":%u", (unsigned)set_size(&o->contents));
+        break;
+    }
+    }
+    char_vector_append(cv, '}');
+}
+
+static char *dump_tree(void)
+{
+    struct char_vector cv;
+    memset(&cv, 0, sizeof(cv));
+    dump_node(&cv, &conf_get_root()->base);
+    char_vector_append(&cv, '\0');
+    return cv.vec;
+}
+
+/* ---- events ----------------------------------------------------------------------------------------- */
+struct ev { char kind; size_t len; char *data; };
+
+static int read_ev(FILE *in, struct ev *e)
+{
+    char hdr[64];
+    if (!fgets(hdr, sizeof(hdr), in)) return -1;
+    e->kind = hdr[0];
+    e->len = strtoul(hdr + 2, NULL, 10);
+    e->data = malloc(e->len + 1);
+    if (e->len && fread(e->data, 1, e->len, in) != e->len) return -1;
+    e->data[e->len] = '\0';
+    return 0;
+}
+
+static struct conf_node_object *parent_of(char *path, char **leaf)
+{
+    struct conf_node_object *obj = conf_get_root();
+    char *sl;
+    while ((sl = strchr(path, '/'))) {
+        struct conf_node_object *c;
+        *sl = '\0';
+        c = conf_register_object(obj, path);
+        if (!c->base.hook)
+            c->base.hook = vh_hook;
+        obj = c;
+        path = sl + 1;
+    }
+    *leaf = path;
+    return obj;
+}
+
+static char *nul1(char *s) { return (s && s[0] == '\1' && !s[1]) ? NULL : s; }
+
+/* registered defaults must outlive the nodes: they are never freed (one arena per process) */
+static void do_register(const char *spec)
+{
+    char *buf = strdup(spec), *f[16], *p = buf, *leaf;
+    int nf = 0;
+    struct conf_node_object *par;
+    while (nf < 16) {
+        f[nf++] = p;
+        p = strchr(p, '\t');
+        if (!p) break;
+        *p++ = '\0';
+    }
+    if (f[0][0] == 's' && nf >= 4) {
+        struct conf_node_string *n;
+        par = parent_of(f[2], &leaf);
+        n = conf_register_string(par, (enum conf_node_string_subtype)atoi(f[1]), leaf, nul1(f[3]));
+        n->base.hook = vh_hook;
+    } else if (f[0][0] == 'l' && nf >= 2) {
+        struct string_vector sv;
+        struct conf_node_string_list *n;
+        int k;
+        memset(&sv, 0, sizeof(sv));
+        for (k = 2; k < nf; ++k) string_vector_append(&sv, f[k]);
+        par = parent_of(f[1], &leaf);
+        n = conf_register_string_list_sv(par, leaf, &sv);
+        n->base.hook = vh_hook;
+        string_vector_clear(&sv);
+    } else if (f[0][0] == 'i' && nf >= 4) {
+        struct conf_node_inaddr *n;
+        par = parent_of(f[1], &leaf);
+        n = conf_register_inaddr(par, leaf, nul1(f[2]), nul1(f[3]));
+        n->base.hook = vh_hook;
+    } else if (f[0][0] == 'r') {
+        conf_get_root()->base.hook = vh_hook;     /* observe membership changes of the root, as log.c does for its section */
+    } else if (f[0][0] == 'o' && nf >= 2) {
+        struct conf_node_object *n;
+        par = parent_of(f[1], &leaf);
+        n = conf_register_object(par, leaf);
+        if (!n->base.hook)
+            n->base.hook = vh_hook;
+    } else {
+        fprintf(stderr, "bad registration %s\n", spec);
+        _exit(3);
+    }
+    /* buf is kept: leaf names are copied by the library, defaults are referenced */
+}
+
+static int do_load(const char *data, size_t len)
+{
+    if (ftruncate(mfd, 0) < 0 || pwrite(mfd, data, len, 0) != (ssize_t)len) {
+        fprintf(stderr, "memfd write failed\n");
+        _exit(3);
+    }
+    return conf_read(mpath);
+}
+
+static const char *SEVN[] = { "debug", "command", "info", "warning", "error", "fatal" };
+static const char *FACS[] = { "f1", "f2", "f3" };
+static const char *FILES[] = { "A", "B", "C" };
+
+static void emit_all(const char *tag, struct char_vector *out)
+{
+    int fi, sv, k;
+    for (k = 0; k < 3; ++k)
+        if (truncate(FILES[k], 0) < 0) {}
+    for (fi = 0; fi < 3; ++fi) {
+        struct log_type *lt = log_type_register(FACS[fi], NULL);
+        for (sv = 0; sv < LOG_NUM_SEVERITIES; ++sv) {
+            if (sv == LOG_FATAL) {
+                pid_t p;
+                int st;
+                fflush(NULL);
+                p = fork();
+                if (p == 0) {
+                    log_message(lt, LOG_FATAL, "%s-%s-%s", tag, FACS[fi], SEVN[sv]);
+                    _exit(9); /* not reached: LOG_FATAL terminates */
+                }
+                waitpid(p, &st, 0);
+                if (!WIFEXITED(st) || WEXITSTATUS(st) != 1)
+                    char_vector_append_printf(out, "\"fatal_%s\":%d,", FACS[fi], WIFEXITED(st) ? WEXITSTATUS(st) : -WTERMSIG(st));
+            } else
+                log_message(lt, (enum log_severity)sv, "%s-%s-%s", tag, FACS[fi], SEVN[sv]);
+        }
+    }
+    for (k = 0; k < 3; ++k) {
+        FILE *f = fopen(FILES[k], "r");
+        char_vector_append_printf(out, "\"%s\":", FILES[k]);
+        if (!f) { char_vector_append_string(out, "null,"); continue; }
+        {
+            struct char_vector all;
+            int c;
+            memset(&all, 0, sizeof(all));
+            while ((c = fgetc(f)) != EOF) char_vector_append(&all, (char)c);
+            char_vector_append(&all, '\0');
+            jstr(out, all.vec);
+            char_vector_append(out, ',');
+            free(all.vec);
+            fclose(f);
+        }
+    }
+}
+
+/* returns rc of a load (0 for other events); emit output appended to *extra */
+static int apply(struct ev *e, struct char_vector *extra)
+{
+    switch (e->kind) {
+    case 'G': do_register(e->data); return 0;
+    case 'L': return do_load(e->data, e->len);
+    case 'F': return conf_read(e->data);
+    case 'M': emit_all(e->data, extra); return 0;
+    }
+    fprintf(stderr, "bad event kind %c\n", e->kind);
+    _exit(3);
+}
+
+/* ---- child plumbing --------------------------------------------------------------------------------- */
+static int errfd_new(void)
+{
+    int fd = memfd_create("stderr", 0);
+    return fd;
+}
+
+static char *slurp_fd(int fd)
+{
+    struct stat sb;
+    char *b;
+    if (fstat(fd, &sb) < 0) return strdup("");
+    b = calloc(1, sb.st_size + 1);
+    if (pread(fd, b, sb.st_size, 0) < 0) {}
+    return b;
+}
+
+static const char *status_text(int st, char *buf)
+{
+    if (WIFEXITED(st)) {
+        if (WEXITSTATUS(st) == 0) return "ok";
+        sprintf(buf, "exit%d", WEXITSTATUS(st));
+    } else if (WIFSIGNALED(st)) {
+        if (WTERMSIG(st) == SIGALRM) return "timeout";
+        sprintf(buf, "sig%d", WTERMSIG(st));
+    } else
+        strcpy(buf, "unknown");
+    return buf;
+}
+
+static void put_line(struct char_vector *cv)
+{
+    char_vector_append(cv, '\n');
+    if (fwrite(cv->vec, 1, cv->used, stdout) != cv->used) {}
+    fflush(stdout);
+    cv->used = 0;
+}
+
+/* ---- EXPAND ------------------------------------------------------------------------------------------ */
+static void do_expand(struct ev *hist, int nh, struct ev *cand, int nc)
+{
+    struct char_vector line, extra;
+    int k, herr = errfd_new();
+    pid_t c;
+    int st;
+    char sb[32];
+
+    memset(&line, 0, sizeof(line));
+    fflush(NULL);
+    c = fork();
+    if (c == 0) {
+        dup2(herr, 2);
+        alarm(20);
+        memset(&extra, 0, sizeof(extra));
+        char_vector_append_string(&line, "{\"h\":1,\"rcs\":[");
+        for (k = 0; k < nh; ++k) {
+            int rc = apply(&hist[k], &extra);
+            char_vector_append_printf(&line, "%s%d", k ? "," : "", rc);
+        }
+        {
+            char *d = dump_tree();
+            char_vector_append_string(&line, "],\"hooks\":");
+            char_vector_append(&hooklog, '\0');
+            jstr(&line, hooklog.vec);
+            char_vector_append_string(&line, ",\"dump\":");
+            char_vector_append_string(&line, d);
+            char_vector_append(&line, '}');
+            free(d);
+        }
+        put_line(&line);
+        for (k = 0; k < nc; ++k) {
+            int efd = errfd_new();
+            pid_t g;
+            fflush(NULL);
+            g = fork();
+            if (g == 0) {
+                int rc, twice = 0;
+                char *d;
+                dup2(efd, 2);
+                alarm(10);
+                hooklog.used = 0; hook_count = 0;
+                memset(&extra, 0, sizeof(extra));
+                if (cand[k].kind == 'D')
+                    cand[k].kind = 'L', twice = 1;
+                rc = apply(&cand[k], &extra);
+                d = dump_tree();
+                char_vector_append(&hooklog, '\0');
+                char_vector_append_printf(&line, "{\"c\":%d,\"rc\":%d,\"hooks\":", k, rc);
+                jstr(&line, hooklog.vec);
+                if (twice) {
+                    /* idempotence probe: the same bytes loaded a second time */
+                    int rc2;
+                    char *d2;
+                    hooklog.used = 0; hook_count = 0;
+                    rc2 = apply(&cand[k], &extra);
+                    d2 = dump_tree();
+                    char_vector_append(&hooklog, '\0');
+                    char_vector_append_printf(&line, ",\"rc2\":%d,\"same2\":%d,\"hooks2\":", rc2, !strcmp(d, d2));
+                    jstr(&line, hooklog.vec);
+                    free(d2);
+                }
+                if (extra.used) {
+                    char_vector_append_string(&line, ",\"emit\":{");
+                    char_vector_append_count(&line, extra.vec, extra.used);
+                    char_vector_append_string(&line, "\"_\":0}");
+                }
+                char_vector_append_string(&line, ",\"dump\":");
+                char_vector_append_string(&line, d);
+                char_vector_append(&line, '}');
+                put_line(&line);
+                _exit(0);
+            }
+            waitpid(g, &st, 0);
+            {
+                char *e = slurp_fd(efd);
+                char_vector_append_printf(&line, "{\"s\":%d,\"status\":\"%s\",\"stderr\":", k, status_text(st, sb));
+                jstr(&line, strlen(e) > 6000 ? e + strlen(e) - 6000 : e);
+                char_vector_append(&line, '}');
+                put_line(&line);
+                free(e);
+            }
+            close(efd);
+        }
+        _exit(0);
+    }
+    waitpid(c, &st, 0);
+    {
+        char *e = slurp_fd(herr);
+        char_vector_append_printf(&line, "{\"end\":\"%s\",\"stderr\":", status_text(st, sb));
+        jstr(&line, strlen(e) > 6000 ? e + strlen(e) - 6000 : e);
+        char_vector_append(&line, '}');
+        put_line(&line);
+        free(e);
+    }
+    close(herr);
+    free(line.vec);
+}
+
+/* ---- SWEEP ------------------------------------------------------------------------------------------- */
+struct shm {
+    long idx;           /* candidate being processed */
+    long done;          /* candidates completed */
+    long n_fail, n_ok, n_viol, n_fatal;
+    long rc_hist[8];    /* by -rc (0..7) */
+    long maxlen_ok;
+    int stop_reason;    /* 1 = success, 2 = violation (state contaminated), 3 = end */
+};
+
+struct source {
+    int kind;           /* 0 list, 1 token strings */
+    long n;             /* list: number of blobs */
+    struct ev *list;
+    int ntok, maxlen;
+    struct ev *tok;
+    long part_k, part_n;
+    long total;         /* number of indices */
+    const char *suffix; size_t suffix_len;   /* appended to every token string */
+};
+
+static long ipow(long b, int e) { long r = 1; while (e-- > 0) r *= b; return r; }
+
+static int cand_get(struct source *s, long idx, struct char_vector *out)
+{
+    out->used = 0;
+    if (idx < 0 || idx >= s->total) return 0;
+    if (s->kind == 0) {
+        char_vector_append_count(out, s->list[idx].data, s->list[idx].len);
+        return 1;
+    } else {
+        /* global index = part_k + idx * part_n over strings ordered by length, then lexicographically */
+        long g = s->part_k + idx * s->part_n;
+        int len, k;
+        for (len = 0; len <= s->maxlen; ++len) {
+            long cnt = ipow(s->ntok, len);
+            if (g < cnt) break;
+            g -= cnt;
+        }
+        if (len > s->maxlen) return 0;
+        {
+            int digits[32];
+            for (k = len - 1; k >= 0; --k) { digits[k] = g % s->ntok; g /= s->ntok; }
+            for (k = 0; k < len; ++k) char_vector_append_count(out, s->tok[digits[k]].data, s->tok[digits[k]].len);
+        }
+        if (s->suffix_len) char_vector_append_count(out, s->suffix, s->suffix_len);
+        return 1;
+    }
+}
+
+static void jhex(struct char_vector *cv, const char *d, size_t n)
+{
+    size_t i;
+    char_vector_append(cv, '"');
+    for (i = 0; i < n; ++i) char_vector_append_printf(cv, "%02x", (unsigned char)d[i]);
+    char_vector_append(cv, '"');
+}
+
+static void do_sweep(struct ev *hist, int nh, struct source *src, int report_ok)
+{
+    struct shm *shm = mmap(NULL, sizeof(*shm), PROT_READ | PROT_WRITE, MAP_SHARED | MAP_ANONYMOUS, -1, 0);
+    struct char_vector line, cand, extra;
+    int herr = errfd_new(), st, k;
+    char sb[32];
+    pid_t c;
+
+    memset(&line, 0, sizeof(line)); memset(&cand, 0, sizeof(cand)); memset(&extra, 0, sizeof(extra));
+    memset(shm, 0, sizeof(*shm));
+    fflush(NULL);
+    c = fork();
+    if (c == 0) {
+        char *before;
+        long next = 0;
+        dup2(herr, 2);
+        for (k = 0; k < nh; ++k) apply(&hist[k], &extra);
+        before = dump_tree();
+        while (next < src->total) {
+            int efd = errfd_new();
+            pid_t w;
+            shm->idx = next; shm->stop_reason = 0;
+            fflush(NULL);
+            w = fork();
+            if (w == 0) {
+                long i;
+                dup2(efd, 2);
+                for (i = next; i < src->total; ++i) {
+                    int rc;
+                    char *after;
+                    shm->idx = i;
+                    if (!cand_get(src, i, &cand)) break;
+                    hooklog.used = 0; hook_count = 0;
+                    alarm(10);
+                    rc = do_load(cand.vec, cand.used);
+                    alarm(0);
+                    if (rc <= 0 && rc > -8) shm->rc_hist[-rc]++;
+                    if (rc == 0) {
+                        after = dump_tree();    /* walks every pointer of the merged tree (ASan) */
+                        shm->n_ok++;
+                        if ((long)cand.used > shm->maxlen_ok) shm->maxlen_ok = cand.used;
+                        if (report_ok) {
+                            char_vector_append_string(&line, "{\"ok\":");
+                            jhex(&line, cand.vec, cand.used);
+                            char_vector_append_string(&line, ",\"dump\":");
+                            char_vector_append_string(&line, after);
+                            char_vector_append(&line, '}');
+                            put_line(&line);
+                        }
+                        free(after);
+                        shm->done = i + 1; shm->stop_reason = 1;
+                        _exit(0);
+                    }
+                    after = dump_tree();
+                    if (strcmp(before, after) || hook_count) {
+                        shm->n_viol++;
+                        char_vector_append(&hooklog, '\0');
+                        char_vector_append_printf(&line, "{\"violation\":{\"kind\":\"%s\",\"rc\":%d,\"input\":", strcmp(before, after) ? "state-changed" : "hook-ran", rc);
+                        jhex(&line, cand.vec, cand.used);
+                        char_vector_append_string(&line, ",\"hooks\":"); jstr(&line, hooklog.vec);
+                        char_vector_append_string(&line, ",\"before\":"); char_vector_append_string(&line, before);
+                        char_vector_append_string(&line, ",\"after\":"); char_vector_append_string(&line, after);
+                        char_vector_append_string(&line, "}}");
+                        put_line(&line);
+                        shm->done = i + 1; shm->stop_reason = 2;
+                        _exit(0);
+                    }
+                    free(after);
+                    shm->n_fail++;
+                    shm->done = i + 1;
+                }
+                shm->stop_reason = 3;
+                _exit(0);
+            }
+            waitpid(w, &st, 0);
+            {
+                char *e = slurp_fd(efd), *u = strstr(e, "runtime error:");
+                if (u) {
+                    char *nl = strchr(u, '\n');
+                    if (nl) *nl = '\0';
+                    char_vector_append_string(&line, "{\"ubsan\":");
+                    jstr(&line, u);
+                    char_vector_append(&line, '}');
+                    put_line(&line);
+                }
+                free(e);
+            }
+            if (shm->stop_reason == 0 || !WIFEXITED(st) || WEXITSTATUS(st) != 0) {
+                /* the worker died while processing candidate shm->idx */
+                char *e = slurp_fd(efd);
+                long i = shm->idx;
+                int fatal_exit = WIFEXITED(st) && WEXITSTATUS(st) == 1 && !strstr(e, "Sanitizer");
+                cand_get(src, i, &cand);
+                if (fatal_exit)
+                    shm->n_fatal++;
+                else
+                    shm->n_viol++;
+                char_vector_append_printf(&line, "{\"%s\":{\"kind\":\"died\",\"status\":\"%s\",\"input\":", fatal_exit ? "fatal_exit" : "violation", status_text(st, sb));
+                jhex(&line, cand.vec, cand.used);
+                char_vector_append_string(&line, ",\"stderr\":");
+                jstr(&line, strlen(e) > 4000 ? e + strlen(e) - 4000 : e);
+                char_vector_append_string(&line, "}}");
+                put_line(&line);
+                free(e);
+                next = i + 1;
+            } else
+                next = shm->done;
+            close(efd);
+            if (shm->stop_reason == 3) break;
+        }
+        _exit(0);
+    }
+    waitpid(c, &st, 0);
+    {
+        char *e = slurp_fd(herr);
+        char_vector_append_printf(&line, "{\"end\":\"%s\",\"total\":%ld,\"fail\":%ld,\"ok\":%ld,\"viol\":%ld,\"fatal_exit\":%ld,\"maxlen_ok\":%ld,\"rc_hist\":[",
+                                  status_text(st, sb), src->total, shm->n_fail, shm->n_ok, shm->n_viol, shm->n_fatal, shm->maxlen_ok);
+        for (k = 0; k < 8; ++k) char_vector_append_printf(&line, "%s%ld", k ? "," : "", shm->rc_hist[k]);
+        char_vector_append_string(&line, "],\"stderr\":");
+        jstr(&line, strlen(e) > 4000 ? e + strlen(e) - 4000 : e);
+        char_vector_append(&line, '}');
+        put_line(&line);
+        free(e);
+    }
+    close(herr);
+    munmap(shm, sizeof(*shm));
+    free(line.vec); free(cand.vec);
+}
+
+/* ---- main loop ---------------------------------------------------------------------------------------- */
+static struct ev *read_evs(FILE *in, int n)
+{
+    struct ev *v = calloc(n ? n : 1, sizeof(*v));
+    int k;
+    for (k = 0; k < n; ++k)
+        if (read_ev(in, &v[k]) < 0) { fprintf(stderr, "short request\n"); exit(3); }
+    return v;
+}
+
+static void free_evs(struct ev *v, int n)
+{
+    int k;
+    for (k = 0; k < n; ++k) free(v[k].data);
+    free(v);
+}
+
+int e2_conf_main(int argc, char **argv)
+{
+    char hdr[256];
+    (void)argc; (void)argv;
+    signal(SIGPIPE, SIG_IGN);
+    setenv("TZ", "UTC", 1);
+    log_set_verbosity(0);
+    mfd = memfd_create("conf", 0);
+    snprintf(mpath, sizeof(mpath), "/proc/self/fd/%d", mfd);
+    conf_get_root();    /* config_init + log_init: the live tree now holds logs{verbose_timestamp} */
+    printf("{\"ready\":1}\n");
+    fflush(stdout);
+    while (fgets(hdr, sizeof(hdr), stdin)) {
+        if (!strncmp(hdr, "EXPAND ", 7)) {
+            int nh = 0, nc = 0;
+            struct ev *h, *c;
+            sscanf(hdr + 7, "%d %d", &nh, &nc);
+            h = read_evs(stdin, nh); c = read_evs(stdin, nc);
+            do_expand(h, nh, c, nc);
+            free_evs(h, nh); free_evs(c, nc);
+        } else if (!strncmp(hdr, "SWEEP ", 6)) {
+            /* SWEEP <n_hist> LIST <n> <report_ok>   |   SWEEP <n_hist> TOK <ntok> <maxlen> <k> <n> <report_ok> (+ one suffix blob) */
+            int nh = 0, a = 0, b = 0, rep = 0;
+            long pk = 0, pn = 1;
+            char kind[16];
+            struct source src;
+            struct ev *h, *sfx = NULL;
+            memset(&src, 0, sizeof(src));
+            if (sscanf(hdr + 6, "%d %15s", &nh, kind) != 2) { fprintf(stderr, "bad sweep\n"); return 3; }
+            h = read_evs(stdin, nh);
+            if (!strcmp(kind, "LIST")) {
+                sscanf(hdr + 6, "%*d %*s %d %d", &a, &rep);
+                src.kind = 0; src.n = a; src.total = a; src.list = read_evs(stdin, a);
+            } else {
+                int len;
+                long tot = 0;
+                sscanf(hdr + 6, "%*d %*s %d %d %ld %ld %d", &a, &b, &pk, &pn, &rep);
+                src.kind = 1; src.ntok = a; src.maxlen = b; src.part_k = pk; src.part_n = pn;
+                src.tok = read_evs(stdin, a);
+                sfx = read_evs(stdin, 1);
+                src.suffix = sfx[0].data; src.suffix_len = sfx[0].len;
+                for (len = 0; len <= b; ++len) tot += ipow(a, len);
+                src.total = tot > pk ? (tot - pk + pn - 1) / pn : 0;
+            }
+            do_sweep(h, nh, &src, rep);
+            free_evs(h, nh);
+            if (src.list) free_evs(src.list, src.n);
+            if (src.tok) free_evs(src.tok, src.ntok);
+            if (sfx) free_evs(sfx, 1);
+        } else if (!strncmp(hdr, "QUIT", 4)) {
+            break;
+        } else {
+            fprintf(stderr, "bad request %s", hdr);
+            return 3;
+        }
+    }
+    return 0;
+}
